@@ -20,15 +20,15 @@ Import-free: linked into `srad_model`.
 namespace Srad.Eon
 
 inductive BT where | birth | rebirth
-  deriving DecidableEq, Repr
+  deriving DecidableEq, Repr, Hashable
 
 inductive Dec where | acc | rej | park
-  deriving DecidableEq, Repr
+  deriving DecidableEq, Repr, Hashable
 
 /-- kinds of client calls -/
 inductive CK where
   | sub | nbirth | ndeath | ndata | dbirth | ddeath | ddata | disconnect
-  deriving DecidableEq, Repr
+  deriving DecidableEq, Repr, Hashable
 
 /-- a hand-over: one call on the `Client` trait object -/
 structure Call where
@@ -42,15 +42,15 @@ structure Call where
   gOnline : Bool := false
   gBirthed : Bool := false
   gFlag : Bool := false          -- the device's birthed flag (device calls)
-  deriving DecidableEq, Repr
+  deriving DecidableEq, Repr, Hashable
 
 inductive URes where
   | ok | noMetrics | offline | unbirthed | cancelled | duplicate
-  deriving DecidableEq, Repr
+  deriving DecidableEq, Repr, Hashable
 
 inductive EvName where
   | online | offline | node | device | other
-  deriving DecidableEq, Repr
+  deriving DecidableEq, Repr, Hashable
 
 /-- what the harness can observe at the trait objects -/
 inductive Obs where
@@ -64,7 +64,7 @@ inductive Obs where
   | bNode
   | bDev (d : Nat)
   | runReturned
-  deriving DecidableEq, Repr
+  deriving DecidableEq, Repr, Hashable
 
 /-- events the MQTT event loop can deliver -/
 inductive Ev where
@@ -72,7 +72,7 @@ inductive Ev where
   | ncmd (rb : Bool) (ts : Bool)     -- rebirth requested (by the recognition rule), payload timestamp present
   | dcmd (d : Nat) (ts : Bool)
   | other
-  deriving DecidableEq, Repr
+  deriving DecidableEq, Repr, Hashable
 
 def Ev.name : Ev → EvName
   | .online => .online | .offline => .offline | .ncmd _ _ => .node | .dcmd _ _ => .device | .other => .other
@@ -80,15 +80,15 @@ def Ev.name : Ev → EvName
 /-- messages on the `client_state` channel (capacity 1); `o` names the oneshot for the new will -/
 inductive CS where
   | online | offline (o : Nat) | stopped
-  deriving DecidableEq, Repr
+  deriving DecidableEq, Repr, Hashable
 
 inductive NS where   -- NodeStateMessage
-  | birth (bt : BT) | death | removed
-  deriving DecidableEq, Repr
+  | birth (bt : BT) (ep : Nat) | death | removed
+  deriving DecidableEq, Repr, Hashable
 
 inductive HR where   -- DeviceHandleRequest
   | enable | disable | rebirth
-  deriving DecidableEq, Repr
+  deriving DecidableEq, Repr, Hashable
 
 /-- where the event-loop task is -/
 inductive LoopPc where
@@ -105,7 +105,7 @@ inductive LoopPc where
   | forceAwaitWill (o : Nat)
   | sendStopped
   | done
-  deriving DecidableEq, Repr
+  deriving DecidableEq, Repr, Hashable
 
 /-- where the node task is -/
 inductive NodePc where
@@ -117,31 +117,32 @@ inductive NodePc where
   | nbDone (ok : Bool) (bt : BT) (fromCmd : Option Nat)
   | inCb (rb : Bool)                                -- inside `on_ncmd`
   | done
-  deriving DecidableEq, Repr
+  deriving DecidableEq, Repr, Hashable
 
 inductive DevPc where
   | idle
-  | waitBirth (id : Nat)
-  | birthDone (ok : Bool)
+  | waitBirth (id : Nat) (ep : Nat)
+  | birthDone (ok : Bool) (ep : Nat)
   | waitDeath (id : Nat) (thenDone : Bool)
   | inCb
   | done
-  deriving DecidableEq, Repr
+  deriving DecidableEq, Repr, Hashable
 
 structure Dev where
+  uid : Nat                      -- incarnation: unique per registration
   name : Nat
   registered : Bool := true      -- still in the `DeviceMap`
   enabled : Bool := false
   flag : Bool := false           -- `DeviceState::birthed`
+  epoch : Nat := 0               -- `DeviceState::birth_epoch`: node birth the device was birthed in
   pc : DevPc := .idle
   nsq : List NS := []
   hq : List HR := []
   mq : List Bool := []           -- DCMDs: payload timestamp present?
-  cbPark : Bool := false         -- harness: `on_dcmd` parks
-  deriving DecidableEq, Repr
+  deriving DecidableEq, Repr, Hashable
 
 inductive PubTarget where | node | dev (d : Nat)
-  deriving DecidableEq, Repr
+  deriving DecidableEq, Repr, Hashable
 
 inductive UPc where
   | start
@@ -149,18 +150,18 @@ inductive UPc where
   | cancelStop          -- cancel: NDEATH handed over, about to signal stop
   | cancelDisc
   | done
-  deriving DecidableEq, Repr
+  deriving DecidableEq, Repr, Hashable
 
 inductive UKind where
   | pub (t : PubTarget) (isTry : Bool) (n : Nat)
   | cancel
-  deriving DecidableEq, Repr
+  deriving DecidableEq, Repr, Hashable
 
 structure UCall where
   j : Nat
   kind : UKind
   pc : UPc := .start
-  deriving DecidableEq, Repr
+  deriving DecidableEq, Repr, Hashable
 
 structure St where
   -- EoNState
@@ -169,6 +170,8 @@ structure St where
   seq : Nat := 0
   bdseq : Nat := 0
   running : Bool := false
+  stopping : Bool := false          -- set by `cancel`
+  epoch : Nat := 0                  -- number of node births started (`birth_epoch`)
   -- configuration / clocks
   cooldown : Nat := 0
   wall : Nat := 0
@@ -188,28 +191,42 @@ structure St where
   -- node task
   node : NodePc := .idle
   nodeCbPark : Bool := false
+  devCbPark : List Nat := []        -- device names whose `on_dcmd` callback parks (harness gate, by name)
   -- devices and user calls
   devs : List Dev := []
   ucalls : List UCall := []
   -- the client: every hand-over so far, in order
   calls : List Call := []
-  deriving DecidableEq, Repr
+  deriving DecidableEq, Repr, Hashable
 
 def init (cooldown : Nat) : St := { cooldown := cooldown }
 
-/-- `EoNState::get_next_seq` -/
-def nextSeq (s : St) : Except URes (St × Nat) :=
+/-- `EoNState::get_next_seq_and_epoch(required_epoch)`: the sequence number is only allocated
+if the node is online and birthed and (when an epoch is required) the node birth has not
+changed since -/
+def nextSeqIn (s : St) (req : Option Nat) : Except URes (St × Nat) :=
   if !s.online then .error .offline
   else if !s.birthed then .error .unbirthed
+  else if (match req with | some e => e != s.epoch | none => false) then .error .unbirthed
   else
     let n := (s.seq + 1) % 256
     .ok ({ s with seq := n }, n)
 
-def findDev (d : Nat) (l : List Dev) : Option Dev := l.find? (fun x => x.name == d && x.pc != .done)
+/-- `EoNState::get_next_seq` -/
+def nextSeq (s : St) : Except URes (St × Nat) := nextSeqIn s none
+
+/-- the incarnation a `DeviceHandle` for name `d` refers to: the one currently in the device map,
+else the most recent live one (the harness keeps the latest handle per name) -/
+def findDev (d : Nat) (l : List Dev) : Option Dev :=
+  match l.find? (fun x => x.name == d && x.registered && x.pc != .done) with
+  | some x => some x
+  | none => l.reverse.find? (fun x => x.name == d && x.pc != .done)
+
+def findUid (u : Nat) (l : List Dev) : Option Dev := l.find? (fun x => x.uid == u)
 
 def setDev (x : Dev) : List Dev → List Dev
   | [] => []
-  | y :: t => if y.name == x.name && y.pc != .done then x :: t else y :: setDev x t
+  | y :: t => if y.uid == x.uid then x :: t else y :: setDev x t
 
 /-- hand a call over to the client: log it with the decision; returns its id and the observation -/
 def handOver (s : St) (c : Call) (dec : Dec) : St × Nat × Obs :=
@@ -329,7 +346,7 @@ def stepLoopTimeout (s : St) : List (St × List Obs) :=
 
 /-- `node_birth` up to and including the NBIRTH hand-over -/
 def nodeBirthStart (s : St) (bt : BT) (fromCmd : Option Nat) (dec : Dec) : St × List Obs :=
-  let s := { s with birthed := false, seq := 0 }
+  let s := { s with birthed := false, seq := 0, epoch := s.epoch + 1 }      -- `start_birth`
   let (s, id, o) := handOver s { kind := .nbirth, seq := some 0, bd := some s.bdseq } dec
   match callRes s id with
   | some ok => ({ s with node := .nbDone ok bt fromCmd }, [.bNode, o])
@@ -342,7 +359,8 @@ def stepNode (s : St) (dec : Dec) : List (St × List Obs) :=
     match s.cs with
     | some .online =>
       let s := { s with cs := none }
-      if s.online then [({ s with online := true }, [])]
+      if s.stopping then [(s, [])]                       -- cancelled: a queued Online starts nothing
+      else if s.online then [({ s with online := true }, [])]
       else
         let s := { s with online := true }
         let (s, id, o) := handOver s { kind := .sub } dec
@@ -381,7 +399,7 @@ def stepNode (s : St) (dec : Dec) : List (St × List Obs) :=
     | some ok => [({ s with node := .nbDone ok bt fromCmd }, [])]
     | none => []
   | .nbDone ok bt fromCmd =>
-    let s := if ok then { s with birthed := true, devs := pushAll (.birth bt) s.devs } else s
+    let s := if ok then { s with birthed := true, devs := pushAll (.birth bt s.epoch) s.devs } else s
     let s := match fromCmd with
       | some now => { s with lastRebirthReq := now }
       | none => s
@@ -397,18 +415,19 @@ def stepNode (s : St) (dec : Dec) : List (St × List Obs) :=
 /-! ### a device task -/
 
 /-- `Device::birth` up to and including the DBIRTH hand-over -/
-def devBirth (s : St) (x : Dev) (bt : BT) (dec : Dec) : St × List Obs :=
-  if !x.enabled then (s, [])
+def devBirth (s : St) (x : Dev) (bt : BT) (req : Option Nat) (dec : Dec) : St × List Obs :=
+  if !x.enabled || !x.registered then (s, [])      -- disabled, or removed from the device map
   else if bt == .birth && x.flag then (s, [])
   else
-    match nextSeq s with
+    -- a birth requested by a node birth (`req = some epoch`) is only valid while that birth is current
+    match nextSeqIn s req with
     | .error _ => (s, [])
     | .ok (s, n) =>
       let (s, id, o) := handOver s { kind := .dbirth, dev := some x.name, seq := some n, gFlag := x.flag } dec
       let x := { x with flag := false }
       match callRes s id with
-      | some ok => ({ s with devs := setDev { x with pc := .birthDone ok } s.devs }, [.bDev x.name, o])
-      | none => ({ s with devs := setDev { x with pc := .waitBirth id } s.devs }, [.bDev x.name, o])
+      | some ok => ({ s with devs := setDev { x with pc := .birthDone ok s.epoch } s.devs }, [.bDev x.name, o])
+      | none => ({ s with devs := setDev { x with pc := .waitBirth id s.epoch } s.devs }, [.bDev x.name, o])
 
 /-- `Device::death(publish)`; `thenDone` = the device was removed -/
 def devDeath (s : St) (x : Dev) (pub thenDone : Bool) (dec : Dec) : St × List Obs :=
@@ -418,7 +437,7 @@ def devDeath (s : St) (x : Dev) (pub thenDone : Bool) (dec : Dec) : St × List O
     let x := { x with flag := false }
     if !pub then ({ s with devs := setDev { x with pc := fin } s.devs }, [])
     else
-      match nextSeq s with
+      match nextSeqIn s (some x.epoch) with
       | .error _ => ({ s with devs := setDev { x with pc := fin } s.devs }, [])
       | .ok (s, n) =>
         let (s, id, o) := handOver s { kind := .ddeath, dev := some x.name, seq := some n, gFlag := true } dec
@@ -426,8 +445,8 @@ def devDeath (s : St) (x : Dev) (pub thenDone : Bool) (dec : Dec) : St × List O
         | some _ => ({ s with devs := setDev { x with pc := fin } s.devs }, [o])
         | none => ({ s with devs := setDev { x with pc := .waitDeath id thenDone } s.devs }, [o])
 
-def stepDev (s : St) (d : Nat) (dec : Dec) : List (St × List Obs) :=
-  match findDev d s.devs with
+def stepDev (s : St) (u : Nat) (dec : Dec) : List (St × List Obs) :=
+  match findUid u s.devs with
   | none => []
   | some x =>
     match x.pc with
@@ -437,7 +456,7 @@ def stepDev (s : St) (d : Nat) (dec : Dec) : List (St × List Obs) :=
         let x := { x with nsq := rest }
         let s := { s with devs := setDev x s.devs }
         (match m with
-         | .birth bt => [devBirth s x bt dec]
+         | .birth bt ep => [devBirth s x bt (some ep) dec]
          | .death => [devDeath s x false false dec]
          | .removed => [devDeath s x true true dec])
       | [] =>
@@ -447,29 +466,29 @@ def stepDev (s : St) (d : Nat) (dec : Dec) : List (St × List Obs) :=
           (match r with
            | .enable =>
              let x := { x with enabled := true }
-             [devBirth { s with devs := setDev x s.devs } x .birth dec]
+             [devBirth { s with devs := setDev x s.devs } x .birth none dec]
            | .disable =>
              let x := { x with enabled := false }
              [devDeath { s with devs := setDev x s.devs } x true false dec]
-           | .rebirth => [devBirth { s with devs := setDev x s.devs } x .rebirth dec])
+           | .rebirth => [devBirth { s with devs := setDev x s.devs } x .rebirth none dec])
         | [] =>
           match x.mq with
           | ts :: rest =>
             let x := { x with mq := rest }
             if !ts then [({ s with devs := setDev x s.devs }, [])]
-            else [({ s with devs := setDev { x with pc := .inCb } s.devs }, [.cbDcmd d])]
+            else [({ s with devs := setDev { x with pc := .inCb } s.devs }, [.cbDcmd x.name])]
           | [] => []
-    | .waitBirth id =>
+    | .waitBirth id ep =>
       match callRes s id with
-      | some ok => [({ s with devs := setDev { x with pc := .birthDone ok } s.devs }, [])]
+      | some ok => [({ s with devs := setDev { x with pc := .birthDone ok ep } s.devs }, [])]
       | none => []
-    | .birthDone ok =>
-      [({ s with devs := setDev { x with flag := (if ok then true else x.flag), pc := .idle } s.devs }, [])]
+    | .birthDone ok ep =>
+      [({ s with devs := setDev (if ok then { x with flag := true, epoch := ep, pc := .idle } else { x with pc := .idle }) s.devs }, [])]
     | .waitDeath id thenDone =>
       match callRes s id with
       | some _ => [({ s with devs := setDev { x with pc := (if thenDone then .done else .idle) } s.devs }, [])]
       | none => []
-    | .inCb => if x.cbPark then [] else [({ s with devs := setDev { x with pc := .idle } s.devs }, [])]
+    | .inCb => if s.devCbPark.contains x.name then [] else [({ s with devs := setDev { x with pc := .idle } s.devs }, [])]
     | .done => []
 
 /-! ### user API calls (each runs as its own short task) -/
@@ -493,7 +512,7 @@ def stepUser (s : St) (j : Nat) (dec : Dec) : List (St × List Obs) :=
           | .node => (nextSeq s).map fun (s, k) => (s, k, false)
           | .dev d =>
             match findDev d s.devs with
-            | some x => if !x.flag then .error .unbirthed else (nextSeq s).map fun (s, k) => (s, k, true)
+            | some x => if !x.flag then .error .unbirthed else (nextSeqIn s (some x.epoch)).map fun (s, k) => (s, k, true)
             | none => .error .unbirthed
         (match gate with
          | .error e => [fin s e []]
@@ -514,10 +533,14 @@ def stepUser (s : St) (j : Nat) (dec : Dec) : List (St × List Obs) :=
     | .cancel, .start =>
       if !s.running then [fin s .cancelled []]
       else
+        let s := { s with stopping := true }
         let (s, _, o) := handOver s { kind := .ndeath, bd := some s.bdseq, isTry := true } dec
         [({ s with ucalls := setUCall { u with pc := .cancelStop } s.ucalls }, [o])]
     | .cancel, .cancelStop =>
-      if s.stop then [] else [({ s with stop := true, ucalls := setUCall { u with pc := .cancelDisc } s.ucalls }, [])]
+      -- `stop_tx.send`: waits while the slot is taken; fails (and is ignored) once `run` has returned
+      if s.loop == .done then [({ s with ucalls := setUCall { u with pc := .cancelDisc } s.ucalls }, [])]
+      else if s.stop then []
+      else [({ s with stop := true, ucalls := setUCall { u with pc := .cancelDisc } s.ucalls }, [])]
     | .cancel, .cancelDisc =>
       let (s, _, o) := handOver s { kind := .disconnect, isTry := true } dec
       [fin s .cancelled [o]]
@@ -535,14 +558,14 @@ inductive Stim where
   | resolve (id : Nat) (ok : Bool)
   | advance (ms : Nat)
   | cbPark (t : PubTarget) (on : Bool)
-  deriving DecidableEq, Repr
+  deriving DecidableEq, Repr, Hashable
 
 def applyStim (s : St) : Stim → St × List Obs
   | .ev e => ({ s with inbox := s.inbox ++ [e] }, [])
   | .reg d =>
     match s.devs.find? (fun x => x.name == d && x.registered && x.pc != .done) with
     | some _ => (s, [])                                    -- Duplicate (reported by the harness itself)
-    | none => ({ s with devs := s.devs ++ [{ name := d }] }, [])
+    | none => ({ s with devs := s.devs ++ [{ uid := s.devs.length, name := d }] }, [])
   | .unreg d =>
     match s.devs.find? (fun x => x.name == d && x.registered && x.pc != .done) with
     | some x => ({ s with devs := setDev { x with registered := false, nsq := x.nsq ++ [.removed] } s.devs }, [])
@@ -572,15 +595,14 @@ def applyStim (s : St) : Stim → St × List Obs
     match t with
     | .node => ({ s with nodeCbPark := on }, [])
     | .dev d =>
-      match findDev d s.devs with
-      | some x => ({ s with devs := setDev { x with cbPark := on } s.devs }, [])
-      | none => (s, [])
+      if on then ({ s with devCbPark := if s.devCbPark.contains d then s.devCbPark else d :: s.devCbPark }, [])
+      else ({ s with devCbPark := s.devCbPark.filter (· != d) }, [])
 
 /-! ### tasks and the global step relation -/
 
 inductive Task where
   | loop | loopTimeout | node | dev (d : Nat) | user (j : Nat)
-  deriving DecidableEq, Repr
+  deriving DecidableEq, Repr, Hashable
 
 def step (s : St) (t : Task) (dec : Dec) : List (St × List Obs) :=
   match t with
@@ -592,7 +614,7 @@ def step (s : St) (t : Task) (dec : Dec) : List (St × List Obs) :=
 
 /-- all tasks that exist in a state -/
 def tasks (s : St) : List Task :=
-  [.loop, .loopTimeout, .node] ++ (s.devs.filter (·.pc != .done)).map (fun d => Task.dev d.name) ++
+  [.loop, .loopTimeout, .node] ++ (s.devs.filter (·.pc != .done)).map (fun d => Task.dev d.uid) ++
     (s.ucalls.filter (·.pc != .done)).map (fun u => Task.user u.j)
 
 end Srad.Eon
